@@ -6,11 +6,14 @@ printer's letter tables are inverted by the parser's arithmetic and switch;
 castling spellings agree. R3 FEN: piece letters, castling letters, side
 letter, e.p. square inverse maps. R4 full-move <-> ply conversion inverse.
 R5 operator==, fen() and the key depend on the same four components."""
+import re
+
 from facts import AnalysisBroken
 from prog import walk, kids, short, access_kind
 from rules import pack
 from rules.common import strip_casts, const_of, guard_facts
 from rules.witness import compile_witness
+from rules.effects import canon
 
 LEVEL = 'proof'
 EXPLANATION = ('Encoding: bit-field layouts extracted from both sides and compared (disjoint, equal shifts, masks '
@@ -309,6 +312,37 @@ def check(ctx):
     ctx.ob('C16.R3.castling-letters', 'fen~Position(fen)', pr == want and parsed == want and order == ['K', 'Q', 'k', 'q'],
            'castling letters KQkq <-> W_OO,W_OOO,B_OO,B_OOO in both directions, printed in FEN order',
            site=fen.loc(), detail={'printed': str(pr), 'parsed': str(parsed), 'order': str(order)})
+    # a printed letter must be honoured when read back: any extra condition on the `|=` has to be the (correct) corner test
+    corner = {cas['W_OO']: ('SQ_H1', 'W_ROOK'), cas['W_OOO']: ('SQ_A1', 'W_ROOK'), cas['B_OO']: ('SQ_H8', 'B_ROOK'), cas['B_OOO']: ('SQ_A8', 'B_ROOK')}
+    n_or = 0
+    for n in ctor.all_nodes():
+        if n['k'] == 'CXXOperatorCallExpr' and n.get('op') == '|=' and \
+                strip_casts(kids(n)[1]).get('ref', {}).get('n') == 'engine::Position::_castling_rights':
+            n_or += 1
+            right = const_of(strip_casts(kids(n)[2]))
+            conds = []
+            for a in ctor.ancestors(n):
+                if a['k'] == 'IfStmt':
+                    conds.append(canon(ctor, kids(a)[0], inline=False).replace(' ', ''))
+                if a['k'] == 'SwitchStmt':
+                    break
+            ok = True
+            why = 'unconditional'
+            if conds:
+                sqn, pcn = corner.get(right, ('?', '?'))
+                allowed = {'(_board[%s]==%s)' % (sqn, pcn), '(piece_at(%s)==%s)' % (sqn, pcn)}
+                kingsq = 'SQ_E1' if pcn == 'W_ROOK' else 'SQ_E8'
+                kingpc = 'W_KING' if pcn == 'W_ROOK' else 'B_KING'
+                allowed |= {'(_board[%s]==%s)' % (kingsq, kingpc), '(piece_at(%s)==%s)' % (kingsq, kingpc)}
+                parts = set()
+                for c_ in conds:
+                    parts |= set(x.strip('()') for x in re.split(r'&&', c_))
+                ok = all(('(%s)' % x.strip('()')) in allowed or x in allowed for x in parts)
+                why = 'guards %s' % conds
+            ctx.ob('C16.R3.castling-honoured', 'right %s' % right, ok,
+                   'the right read from a castling letter is set unconditionally, or only subject to king/rook standing on that right\'s own home squares (%s)' % why,
+                   site=ctor.loc(n))
+    ctx.floor('C16.R3.castling-honoured', n_or, 4, 'castling-right assignments in the FEN constructor')
     # side letter
     side_print = None
     for n in fen.all_nodes():
